@@ -78,9 +78,10 @@ def model_input(op, impl):
         if LIST_ERROR in impl and f.get("A", "none") != "none":
             return "e %s none none %s none" % (MODE, f["A"])
         return "# " + impl[:60]
-    if f.get("M", "none") == "none" and f.get("A", "none") == "none":
-        return "# no where clause"
-    return "e %s %s %s %s %s" % (MODE, f.get("M", "none"), f.get("R", "none"), f.get("A", "none"), f.get("RK", "none"))
+    if f.get("M", "none") == "none" and f.get("A", "none") == "none" and f.get("gqm", "unmodelled") == "unmodelled":
+        return "# no where clause, query outside the clause-level algebra"
+    return "e %s %s %s %s %s %s %s %s" % (MODE, f.get("M", "none"), f.get("R", "none"), f.get("A", "none"), f.get("RK", "none"),
+                                          f.get("QM", "none"), f.get("QR", "none"), f.get("QA", "none"))
 
 
 def blank_params(term):
@@ -94,6 +95,26 @@ def prep_view_impl(f, error=False):
         return ""
     rk = f.get("RK", "none")
     return " | prep=%s/%s" % ("(ks)" if rk == "none" else rk, blank_params(f.get("M", "none")))
+
+
+def query_view_impl(f):
+    if MODE == "current" or f.get("gqm", "unmodelled") == "unmodelled" or "QM" not in f:
+        return ""
+    # tokens of the whole text, normal form of the rendered model, of the re-parse (twice: Lean's parse must predict it),
+    # and what Prepare made of the applied query
+    out = " | qtoks=%s | qnm=%s | qnr=%s | qreparse=%s" % (f.get("qtoks"), f.get("gqm"), f.get("gqr"), f.get("gqr") if f.get("gqr") != "unmodelled" else "none")
+    if f.get("QA", "none") != "none":
+        out += " | qprep=%s" % f.get("QM")
+    return out
+
+
+def query_view_model(f):
+    if "qtoks" not in f:
+        return ""
+    out = " | qtoks=%s | qnm=%s | qnr=%s | qreparse=%s" % (f.get("qtoks"), f.get("qnm"), f.get("qnr"), f.get("qparse"))
+    if "qprep" in f:
+        out += " | qprep=%s" % f.get("qprep")
+    return out
 
 
 def prep_view_model(f):
@@ -112,12 +133,16 @@ def impl_view(impl):
         return "#"
     if f.get("M", "none") == "none":
         if f.get("A", "none") == "none":
-            return "#"
-        return "not-in-algebra" if "(unmodelled " in f["A"] else "nowhere" + prep_view_impl(f)
+            return ("nowhere" + query_view_impl(f)) if query_view_impl(f) else "#"
+        if "(unmodelled " in f["A"]:
+            return "not-in-algebra"
+        return "nowhere" + prep_view_impl(f) + query_view_impl(f)
     if f.get("gm") == "unmodelled":
         return "not-in-algebra"
-    # the Lean side must (1) write the same tokens, (2) compute the same normal forms, (3) predict the re-parse
-    return "toks=%s | nm=%s | nr=%s | reparse=%s" % (f.get("toks"), f.get("gm"), f.get("gr"), f.get("gr") if f.get("gr") != "unmodelled" else "none") + prep_view_impl(f)
+    # the Lean side must (1) write the same tokens, (2) compute the same normal forms, (3) predict the re-parse,
+    # (4) predict Prepare, (5) the same four for the whole query
+    return "toks=%s | nm=%s | nr=%s | reparse=%s" % (f.get("toks"), f.get("gm"), f.get("gr"), f.get("gr") if f.get("gr") != "unmodelled" else "none") \
+        + prep_view_impl(f) + query_view_impl(f)
 
 
 def model_view(model):
@@ -127,9 +152,9 @@ def model_view(model):
         return "not-in-algebra" if model.startswith("unmodelled(") else model
     f = fields(model)
     if model.startswith("nowhere"):
-        return "nowhere" + prep_view_model(f)
+        return "nowhere" + prep_view_model(f) + query_view_model(f)
     nr = "unmodelled" if "runmodelled" in f else f.get("nr")
-    return "toks=%s | nm=%s | nr=%s | reparse=%s" % (f.get("toks"), f.get("nm"), nr, f.get("parse")) + prep_view_model(f)
+    return "toks=%s | nm=%s | nr=%s | reparse=%s" % (f.get("toks"), f.get("nm"), nr, f.get("parse")) + prep_view_model(f) + query_view_model(f)
 
 
 SHAPE_ORDER = ["empty-list", "int-out-of-range", "not-over-unparenthesised-not", "not-over-unparenthesised-and",
@@ -327,7 +352,8 @@ MANIFEST = {
             "(norm_preserves_eval). String escaping round-trips for all strings (literal_roundtrip_string). Prepare's hoisting of a relationship kind "
             "matcher onto the MATCH pattern preserves the three-valued meaning when the matcher is the only one hoisted, any-of, and in a purely "
             "conjunctive un-negated position (prepare_preserves_eval), with separating valuations for OR/XOR/negation/second-matcher/all-of. The tie compares, for every generated term, "
-            "Lean emit with the real text token-wise, Lean norm with the harness normaliser, Lean parse∘emit with the real re-parse, and the Lean model of "
+            "Lean emit with the real text token-wise (WHERE expression and whole query), Lean norm with the harness normaliser, Lean parse∘emit with the real "
+            "re-parse, the Lean model of whole-query Prepare (parameter names p0.. in text order, kinds hoisted onto the pattern) with the real one, and the Lean model of "
             "Prepare (kinds on the pattern + rewritten WHERE) with the real Prepare; every criteria value is rendered through two fresh neo4j builders and "
             "query.Builder (texts identical, caller's criteria unchanged).",
     "note": "Known findings are listed in known_findings.json (C10:*). Lexing of tokens other than string literals, ANTLR, and float<->decimal "
